@@ -19,6 +19,8 @@ import (
 	"github.com/lab5e/lospan/pkg/protocol"
 	"github.com/lab5e/lospan/pkg/server"
 	"github.com/lab5e/lospan/pkg/storage"
+	"github.com/lab5e/lospan/pkg/verifgate"
+	"sync/atomic"
 )
 
 // gwWorld is a real GenericPacketForwarder on a loopback UDP port, with the harness as gateways
@@ -213,6 +215,16 @@ func (w *gwWorld) sync() bool {
 // set once barriers stopped coming back to their sockets (see sync)
 var gwDegraded bool
 
+// armed for one datagram: the forwarder's GetGateway fails (gate hook of the storage layer)
+var gwLookupFails atomic.Bool
+
+func gwHook(op string, args ...any) error {
+	if op == "GetGateway" && gwLookupFails.CompareAndSwap(true, false) {
+		return errors.New("injected: registry look-up failed")
+	}
+	return nil
+}
+
 // everything the sockets received, and everything handed to the pipeline, up to the last barrier
 func (w *gwWorld) collect() ([]string, []server.GatewayPacket) {
 	got, f := w.stash, w.stashF
@@ -352,6 +364,8 @@ func runGwHistory(rng *rand.Rand, w *Writer, suite string, malformed bool) {
 	noChecks := rng.Intn(5) == 0
 	gw := newGwWorld(noChecks, 3)
 	defer gw.close()
+	verifgate.Hook = gwHook
+	defer func() { verifgate.Hook = globalHook }()
 	defer func() {
 		if gwDegraded {
 			w.Count("gw.barriers-not-answered-to-their-sockets")
@@ -432,6 +446,12 @@ func runGwHistory(rng *rand.Rand, w *Writer, suite string, malformed bool) {
 			tok := someToken(rng)
 			ver := byte(1 + rng.Intn(2))
 			ne := rng.Intn(5)
+			if rng.Intn(8) == 0 {
+				// a gateway that reports many receptions at once: a datagram well beyond an Ethernet frame (below the
+				// forwarder's 8192-byte read buffer)
+				ne = 7 + rng.Intn(16)
+				w.Count("gw.push_data.many-entries")
+			}
 			var ents []string
 			var js []string
 			for k := 0; k < ne; k++ {
@@ -488,8 +508,17 @@ func runGwHistory(rng *rand.Rand, w *Writer, suite string, malformed bool) {
 			}
 			pkt := append(header(ver, tok, 0, e), []byte(body)...)
 			w.Begin(suite + " datagram " + hx(pkt))
+			evName := "G"
+			if rng.Intn(10) == 0 {
+				// the registry look-up for this datagram fails (the store is being closed, a transient error): a
+				// gateway whose registration cannot be read is not served
+				gwLookupFails.Store(true)
+				evName = "GF"
+				w.Count("gw.push_data.lookup-fails")
+			}
 			gw.send(si, pkt)
-			step(fmt.Sprintf("G,%d,%s,%s,%s", si, hx(pkt), cls, strings.Join(ents, ";")), opaque)
+			step(fmt.Sprintf("%s,%d,%s,%s,%s", evName, si, hx(pkt), cls, strings.Join(ents, ";")), opaque)
+			gwLookupFails.Store(false)
 			w.Count("gw.push_data." + cls)
 		case r < 10: // other / malformed datagrams
 			si := rng.Intn(len(gw.socks))
